@@ -693,7 +693,7 @@ def _view(fr, light=False):
         # the mapping interface of the request: keys / iter / len / item access / repr
         out['req_map_ok'] = (len(rq) == len(rq.environ) and list(rq) == list(rq.environ)
                              and list(rq.keys()) == list(rq.environ.keys()) and rq['PATH_INFO'] == rq.environ['PATH_INFO'])
-        out['repr_has_path'] = fr['path'] in repr(rq)
+        out['repr_has_path'] = bool(fr.get('domain')) or fr['path'] in repr(rq)   # (domain_map hides the prefix)
         try:
             out['ext'] = rq.verif_note             # an ext attribute lives in this request's environ
         except AttributeError:
@@ -777,7 +777,7 @@ def _ret(fr, app, kind):
         # headers (not cookies) and body of app.response
         fr['w_body'] = 'resp:' + tok
         fr['w_end'] = 203
-        fr['w_hdrs'] = {'X-Obj': tok + 'obj'}
+        fr['w_end_hdrs'] = {'X-Obj': tok + 'obj'}
         resp = ombott.HTTPResponse('resp:' + tok, 203, {'X-Obj': tok + 'obj'}, X_More=tok)
         if kind == 'resp_obj':
             return resp
@@ -798,6 +798,7 @@ def _ret(fr, app, kind):
     if kind == 'bad_charset':
         # the text cannot be encoded: the exception leaves _cast and reaches the last-resort page of wsgi()
         app.response.headers['Content-Type'] = 'text/html; charset=no-such-charset'
+        fr['w_hdrs']['Content-Type'] = 'text/html; charset=no-such-charset'
         fr['w_final'], fr['w_end'] = ('critical' if app.config.catchall else 'escaped'), 500
         return 'text:' + tok
     if kind == 'loop418':
@@ -1104,7 +1105,7 @@ def do_call(apps, call, log, environ=None, path=None):
               readonly=call.get('readonly'), chunked_bad=call.get('chunked_bad'), too_big=call.get('too_big'),
               json_bad=call.get('json_bad'), json_nonobj=call.get('json_nonobj'), hook_input=call.get('hook_input'),
               log=log, w_hdrs={}, w_status=200, w_cookies={}, w_final='text', w_body='done:' + tok,
-              handler_runs=True, file_wrapper=call.get('file_wrapper'))
+              handler_runs=True, file_wrapper=call.get('file_wrapper'), domain=call.get('domain'))
     if environ is None and call.get('route', 'r') != 'r':
         # the scripted handler is not reached: the framework answers by itself
         fr['handler_runs'] = False
@@ -1143,7 +1144,7 @@ def do_call(apps, call, log, environ=None, path=None):
                w_final=fr['w_final'], w_status=w_status, w_body='' if nobody else fr['w_body'], nobody=nobody,
                w_location=fr.get('w_location'), w_allow=fr.get('w_allow'),
                w_line=fr.get('w_line') if fr['w_final'] in ('text', 'gen') and 'w_end' not in fr else None,
-               w_hdrs=_flat(fr['w_hdrs']),
+               w_hdrs=[h for h in _flat(fr.get('w_end_hdrs', fr['w_hdrs'])) if h[0].startswith('X-')],
                w_cookies=sorted([k, v] for k, v in fr['w_cookies'].items()))
     log.append(rec)
     return rec
